@@ -258,14 +258,15 @@ def main(tier):
     if mism:
         run.log('translator validation mismatch', mism[:3])
         run.inconclusive.append({'name': 'translator-validation', 'status': INCONCLUSIVE, 'error': str(mism[:3])})
-    second = 'cvc5' if tier == 'thorough' else None
     specs = []
     ks_all = list(range(1, 33))
     for k in ks_all:
+        second = None if tier != 'thorough' else ('cvc5' if k <= 12 else 'z3bin')
         specs.append(('props.C07', 'ob_encode', {'k': k, 'second': second}))
         specs.append(('props.C07', 'ob_encode_rc', {'k': k, 'second': second}))
         specs.append(('props.C07', 'ob_decode', {'k': k, 'second': second}))
         specs.append(('props.C07', 'ob_roundtrip', {'k': k, 'second': second}))
+    second = 'z3bin' if tier == 'thorough' else None
     for n in range(0, 33):
         specs.append(('props.C07', 'ob_revcomp', {'n': n, 'second': second}))
     for n in (33, 34) + ((35, 40) if tier == 'thorough' else ()):
